@@ -93,6 +93,8 @@ def bases():
         ["quasi", 0, [["unq", 0, [V()]], ["unqs", 0, [V()]]]],
         ["fn", "plain", [["params", 0, [P("d", V()), P("dk", V())]], V()]],
         ["fn", "call", [["params", 0, [P("d", V())]], V(), ["return", 0, [V()]]]],
+        ["fn", "plain", [["params", 0, [P("o"), P("do", V()), P("d", V()), P("dk", V())]], V()]],
+        ["fn", "plain", [["params", 0, [P("do", V()), P("doa", V(), V()), P("d", V())]], V()]],
         ["fn", "plain", [["params", 0, [P("da", V(), V()), P("ra", V()), P("wa", V())]], ["yield", 0, [V()]]]],
         ["fn", "plain", [["params", 0, []], ["yieldfrom", 0, [V()]]]],
         ["fn", "async", [["params", 0, []], ["await", 0, [V()]]]],
@@ -249,7 +251,7 @@ def strategy(max_depth):
         def params(depth, fn, must_default):
             ps = []
             for _ in range(i(4)):
-                opt = pick(["d", "d", "dk", "da", "a", "", "ra", "wa", "dka"])
+                opt = pick(["d", "d", "dk", "da", "a", "", "ra", "wa", "dka", "do", "do", "o", "doa"])
                 if must_default and "d" not in opt and "r" not in opt and "w" not in opt:
                     opt = "d" + opt
                 ch = []
